@@ -1,6 +1,6 @@
 """developer helper: run one or more cases in-process and print a summary"""
 import sys, time, faulthandler, importlib, os
-sys.path.insert(0,'/verif/.deps'); sys.path.insert(0,'/verif'); sys.path.insert(0,'/repo')
+sys.path.insert(0,'/verif/.deps'); sys.path.insert(0,'/verif'); sys.path.insert(0, os.environ.get('REPO','/repo'))
 limit = int(os.environ.get("LIMIT", "120"))
 faulthandler.dump_traceback_later(limit, exit=True)
 from gvc.harness import run_case, CASES, BY_ID
